@@ -11,6 +11,7 @@ import (
 	"encoding/json"
 	"fmt"
 	"os"
+	"os/exec"
 	"path/filepath"
 	"reflect"
 	"strings"
@@ -56,6 +57,23 @@ func pipelineWork(src []byte, k sigKey) string {
 			fmt.Fprintf(&b, "|verify:%v:%s:%v", verr == nil, payload, cs.Signature.SignedFields)
 		}
 	}
+	return b.String()
+}
+
+// parseDigest: parse (result and the full warning text), interpolate, marshal — no key material, so two processes agree.
+func parseDigest(src []byte) string {
+	var b strings.Builder
+	p, err := pipeline.Parse(bytes.NewReader(src))
+	fmt.Fprintf(&b, "err:%v", err)
+	if p == nil || (err != nil && !warning.Is(err)) {
+		return b.String()
+	}
+	b.WriteString("|" + vl.Enc(dump.Pipeline(p)))
+	if err := p.Interpolate(mapEnv{"FOO": "foo", "BAR": "bar"}, false); err != nil {
+		return b.String() + "|interpolate-error:" + err.Error()
+	}
+	jb, jerr := json.Marshal(p)
+	fmt.Fprintf(&b, "|%s|%v", jb, jerr)
 	return b.String()
 }
 
@@ -236,6 +254,9 @@ func runC19(c *ctx) error {
 		for j := 0; j < n; j++ {
 			m.Set(fmt.Sprintf("k%d", j), j)
 		}
+		// nested values reached only through a sequence: ordered maps whose keys are not in alphabetical order
+		m.Set("k1", []any{ordered.MapFromItems(ordered.TupleSA{Key: "zeta", Value: "/z"}, ordered.TupleSA{Key: "alpha", Value: []any{ordered.MapFromItems(ordered.TupleSA{Key: "y", Value: 1}, ordered.TupleSA{Key: "x", Value: 2})}}), "plain"})
+		nestedBefore, _ := json.Marshal(m)
 		for j := 0; j < n/2-1; j++ { // one short of the compaction threshold
 			m.Delete(fmt.Sprintf("k%d", rng.Intn(n)))
 		}
@@ -254,6 +275,14 @@ func runC19(c *ctx) error {
 		c.res.OracleChecks++
 		if after := dumpMap(m); after != before {
 			c.res.Fail(core.OracleFailure{What: "an observer changed the concrete state of the ordered map (e.g. lazy compaction)", Input: before, Got: after, Want: before})
+		}
+		if v, ok := m.Get("k1"); ok {
+			// (k1 may have been deleted above; when it is still there its nested maps are still ordered maps)
+			if l, ok := v.([]any); !ok || len(l) != 2 {
+				c.res.Fail(core.OracleFailure{What: "an observer replaced a nested sequence of the ordered map", Input: string(nestedBefore)})
+			} else if _, ok := l[0].(*ordered.MapSA); !ok {
+				c.res.Fail(core.OracleFailure{What: "an observer converted a nested ordered map of its argument in place", Input: string(nestedBefore), Got: fmt.Sprintf("%T", l[0]), Want: "*ordered.Map"})
+			}
 		}
 		c.res.Case("observer-frame:"+before, true)
 	}
@@ -316,6 +345,43 @@ func runC19(c *ctx) error {
 			c.res.Hist("rounds.distinct-steps-of-one-document")
 		}
 	}
+	// ---------- (e) no history: what this process answers for a document after everything above equals what a
+	// fresh process answers when the document is the first thing it ever sees (warnings text included) ----------
+	if exe, err := os.Executable(); err == nil {
+		docs := []string{
+			"steps:\n  - llama: Kuzco\n  - wait\n  - alpaca: x\n",
+			"steps:\n  - command: a\n  - {type: deploy}\n  - group: g\n    steps: [{mystery: 1}]\n",
+			"steps:\n  - wait\n  - {zz: 1}\n",
+		}
+		for i := 0; i < 5; i++ {
+			o := &gen.Opts{R: rng, Str: c04Str, Key: gen.DefaultKey, MaxGroupDepth: 2, MaxMapSize: 8, TypeErrors: 30}
+			if b, err := yaml.Marshal(o.Pipeline()); err == nil {
+				docs = append(docs, string(b))
+			}
+		}
+		for _, d := range docs {
+			f, err := os.CreateTemp("", "vf-c19-doc-*")
+			if err != nil {
+				break
+			}
+			f.WriteString(d)
+			f.Close()
+			cmd := exec.Command(exe)
+			cmd.Env = append(os.Environ(), "VERIF_C19_DIGEST_FILE="+f.Name(), "GORACE=")
+			out, err := cmd.Output()
+			os.Remove(f.Name())
+			if err != nil {
+				c.res.Notes = append(c.res.Notes, "fresh-process digest could not be computed: "+err.Error())
+				continue
+			}
+			c.res.OracleChecks++
+			if here := parseDigest([]byte(d)); here != string(out) {
+				c.res.Fail(core.OracleFailure{What: "the answer for a document depends on what the process did before (fresh process vs this process)", Input: d, Got: firstDiff(here, string(out))})
+			}
+			c.res.Case("fresh-process:"+d, true)
+			c.res.Hist("fresh-process-comparisons")
+		}
+	}
 	// ---------- race detector reports ----------
 	raceBuilt := raceEnabled
 	if logs, _ := filepath.Glob(os.Getenv("VERIF_RACE_LOG") + "*"); os.Getenv("VERIF_RACE_LOG") != "" {
@@ -328,7 +394,7 @@ func runC19(c *ctx) error {
 	}
 	c.res.Notes = append(c.res.Notes, fmt.Sprintf("race detector compiled in: %v", raceBuilt))
 	c.res.Sample(map[string]any{"shared_map": beforeMap[:min(len(beforeMap), 300)], "goroutines": 16})
-	c.res.Rule = "rounds of 16 goroutines: (a) parse, interpolate, marshal, sign and verify distinct generated pipelines concurrently, digests compared with the sequential run; (b) read-only use (lookups, iteration, equality, marshalling, verification, signing as observer, key validation, FullSource) of one shared ordered map with tombstones, one shared signed pipeline and one key set, answers compared with sequential use, under the race detector; (c) every observer on maps with tombstones one short of the compaction threshold must leave the concrete slot/index state unchanged. Distinct by document / round."
+	c.res.Rule = "rounds of 16 goroutines: (a) parse, interpolate, marshal, sign and verify distinct generated pipelines concurrently, digests compared with the sequential run; (b) read-only use (lookups, iteration, equality, marshalling, verification, signing as observer, key validation, FullSource) of one shared ordered map with tombstones, one shared signed pipeline and one key set, answers compared with sequential use, under the race detector; (c) every observer on maps with tombstones one short of the compaction threshold (and nested ordered maps inside sequences) must leave the concrete slot/index state and the nested values unchanged; (d) concurrent in-place work on distinct steps of one aliased document; (e) parse / warnings / interpolate / marshal digests of documents with unknown steps agree with a fresh process that sees the document first. Distinct by document / round."
 	c.res.ModelRequests = 0
 	_ = reflect.DeepEqual
 	return nil
